@@ -168,11 +168,13 @@ pub fn undo_renaming(id: &str, renamify_dir: &Path) -> Result<()> {
         }
     }
 
-    // Sort directories by depth (deepest first)
+    // Sort directories by depth (shallowest first): the recorded paths are in the coordinates of
+    // the original tree, so a directory renamed inside a renamed directory only exists at its
+    // recorded new path once its parent has been renamed back.
     dir_mappings.sort_by(|a, b| {
         let a_depth = a.1.components().count();
         let b_depth = b.1.components().count();
-        b_depth.cmp(&a_depth)
+        a_depth.cmp(&b_depth)
     });
 
     for (from, to) in &dir_mappings {
